@@ -109,7 +109,7 @@ class Kernel:
         # line-level scheduling: every source line executed by a managed task in one of these files (path suffixes) is a
         # scheduling point (used to interleave plain library calls that share module-level state)
         self.trace_files = ()
-        self.eager_timeouts = False   # timed waits may expire although other tasks are enabled
+        self.eager_timeouts = True    # timed waits may expire although other tasks are enabled ("however long a thread is delayed")
         self.expired_early = 0
         self.trace_repeat_limit = 3
         self.trace_funcs = ()         # if non-empty: only functions with these names are traced
